@@ -108,3 +108,22 @@ package authz
 //@     before call authz.extractModulesFromTuples args ts, tsys : assert forall j int :: 0 <= j && j < len(req.GetWrites().GetTupleKeys()) ==> typeIs(ts[j], "*openfgav1.TupleKey") && as(ts[j], "*openfgav1.TupleKey") == req.GetWrites().GetTupleKeys()[j]
 //@     before call authz.extractModulesFromTuples args ts, tsys : assert forall j int :: 0 <= j && j < len(req.GetDeletes().GetTupleKeys()) ==> as(ts[len(req.GetWrites().GetTupleKeys()) + j], "*openfgav1.TupleKeyWithoutCondition") == req.GetDeletes().GetTupleKeys()[j]
 //@     after call authz.extractModulesFromTuples returning m, e : extracted = extracted + 1 ; extractErr = e
+
+// one module's decision: a failed (or erroring) authorization of this module is reported to the collecting loop on
+// every path of the worker — an error is never dropped, so "any error denies" survives the fan-out. (The contract is
+// on the worker's sequential body; that the collector drains the channel after all workers finished is a schedule
+// argument outside the technique.)
+//@ func (*Authorizer).moduleAuthorize$1(module)
+//@   property C26
+//@   option nosafety
+//@   option defer_neutral
+//@   requires deref(a) != nil && deref(a).config != nil && deref(a).server != nil
+//@   ensures @errorReported failed ==> sent
+//@   monitor report
+//@     ghost failed = false
+//@     ghost sent = false
+//@     ghost lastErr error = nil
+//@     before call (*authz.Authorizer).individualAuthorize args _, _, cl, rel, obj : assert cl == deref(clientID) && rel == deref(relation)
+//@     after call (*authz.Authorizer).individualAuthorize returning e : failed = e != nil ; lastErr = e
+//@     before call send args v : assert failed && v == lastErr
+//@     after call send : sent = true
